@@ -12,6 +12,8 @@ pub mod raster3;
 pub mod stats;
 pub mod utility;
 pub mod sensor;
+#[cfg(engeom_verif)]
+pub mod verif_trace;
 
 pub type Result<T> = std::result::Result<T, Box<dyn Error>>;
 
